@@ -173,7 +173,13 @@ func (e *Exec) intToFloat(x Int, t types.Type) Value {
 	if x.Sg {
 		op = "to_fp"
 	}
-	ft := e.def(Sort{K: SFP, W: 64}, fmt.Sprintf("((_ %s 11 53) RNE %s)", op, x.S.Name))
+	src := x.S.Name
+	if lo, hi, ok := e.ival(x); ok && x.W == 64 && lo >= 0 && hi < 1<<31 {
+		// narrow: the value fits 32 bits, convert from the low word (non-negative, so signed conversion is right)
+		src = "((_ extract 31 0) " + src + ")"
+		op = "to_fp"
+	}
+	ft := e.def(Sort{K: SFP, W: 64}, fmt.Sprintf("((_ %s 11 53) RNE %s)", op, src))
 	if lo, hi, ok := e.ival(x); ok {
 		ft.RLo, ft.RHi, ft.RBnd = float64(lo)*(1-1e-15)-1, float64(hi)*(1+1e-15)+1, true
 		if lo > -two53 && hi < two53 {
@@ -208,6 +214,11 @@ func (e *Exec) floatToInt(x Float, w uint8, sg bool) Value {
 	op := "fp.to_ubv"
 	if sg {
 		op = "fp.to_sbv"
+	}
+	if w == 64 && x.S.RBnd && x.S.RLo >= 0 && x.S.RHi < float64(int64(1)<<46) {
+		// narrow: a non-negative result below 2^46 is converted on 48 bits and zero-extended
+		t48 := e.def(Sort{K: SBV, W: 64}, fmt.Sprintf("((_ zero_extend 16) ((_ fp.to_ubv 48) RTZ %s))", x.S.Name))
+		return e.mkSym(t48, w, sg, int64(math.Trunc(x.S.RLo)), int64(math.Trunc(x.S.RHi)), true)
 	}
 	t := e.def(Sort{K: SBV, W: int(w)}, fmt.Sprintf("((_ %s %d) RTZ %s)", op, w, x.S.Name))
 	if x.S.RBnd && math.Abs(x.S.RLo) < 1e18 && math.Abs(x.S.RHi) < 1e18 {
